@@ -156,7 +156,12 @@ func ruleHash(state *core.BuildState, target *core.BuildTarget, runtime bool) []
 	hashStringers(h, target.DeclaredDependencies())
 	hashStringers(h, target.Visibility) // Doesn't strictly affect the output, but best to be safe.
 	hashStrings(h, target.Hashes)
-	hashStringers(h, target.AllSources())
+	// The names of named groups end up in the build environment (SRCS_<NAME>, TOOLS_<NAME>,
+	// SECRETS_<NAME>), so they are hashed as well as the entries.
+	hashStringers(h, target.Sources)
+	hashNamedInputs(h, target.NamedSources)
+	hashStringers(h, target.Tools)
+	hashNamedInputs(h, target.AllNamedTools())
 	hashStrings(h, target.DeclaredOutputs())
 	outs := target.DeclaredNamedOutputs()
 	hashInt(h, len(outs))
@@ -168,6 +173,16 @@ func ruleHash(state *core.BuildState, target *core.BuildTarget, runtime bool) []
 	hashStrings(h, target.OptionalOutputs)
 	hashStrings(h, target.Labels)
 	hashStrings(h, target.Secrets)
+	secretNames := make([]string, 0, len(target.NamedSecrets))
+	for name := range target.NamedSecrets {
+		secretNames = append(secretNames, name)
+	}
+	sort.Strings(secretNames)
+	hashInt(h, len(secretNames))
+	for _, name := range secretNames {
+		hashString(h, name)
+		hashStrings(h, target.NamedSecrets[name])
+	}
 	hashBool(h, target.IsBinary)
 	hashOptionalBool(h, target.IsSubrepo)
 	hashOptionalBool(h, target.Sandbox)
@@ -261,6 +276,20 @@ func hashStringers[T fmt.Stringer](writer hash.Hash, items []T) {
 	hashInt(writer, len(items))
 	for _, item := range items {
 		hashString(writer, item.String())
+	}
+}
+
+// hashNamedInputs writes named groups of inputs in the order of their names.
+func hashNamedInputs(writer hash.Hash, named map[string][]core.BuildInput) {
+	names := make([]string, 0, len(named))
+	for name := range named {
+		names = append(names, name)
+	}
+	sort.Strings(names)
+	hashInt(writer, len(names))
+	for _, name := range names {
+		hashString(writer, name)
+		hashStringers(writer, named[name])
 	}
 }
 
